@@ -149,6 +149,11 @@ type Spec struct {
 	// import lines it needs.
 	PkgExtra        map[int]string   `json:"pkgextra,omitempty"`
 	PkgExtraImports map[int][]string `json:"pkgextraimports,omitempty"`
+	// InjExtra is free-form source (declarations) appended to the first
+	// injector file, so that Wire copies it into its output; InjExtraImports
+	// maps the import paths it needs to the names it uses for them.
+	InjExtra        string            `json:"injextra,omitempty"`
+	InjExtraImports map[string]string `json:"injextraimports,omitempty"`
 	// Extra is free-form source appended to the root package (C14/C15 use it).
 	Extra string `json:"extra,omitempty"`
 	// name is the program's directory below progs/, set when rendering.
